@@ -74,6 +74,7 @@ theorem frameAction_inv {cfg : Cfg} {top : JFrame} {rest : List JFrame} {a : Int
     | create i =>
       obtain ⟨x, y⟩ := makeCreateFrame_depth hmk
       exact ⟨fun r hr => (x r hr).1, y⟩
+    | eofCreate i => cases hmk
   simp only at h
   cases fr with
   | frame f =>
